@@ -38,6 +38,7 @@ fn ctl_grammar() -> Grammar {
         if_expr: true,
         if_else: true,
         loop_counts: vec![0, 1, 3],
+        ja_loops: true,
         iife: true,
         block_stmt: true,
         break_continue: true,
@@ -153,6 +154,10 @@ fn residue_family(sh: &mut Shard, tier: Tier) {
     for n in 0..=msize {
         en.each_block(n, loop_ctx, &mut |body| {
             for k in [0i64, 1, 2, 100, 70_000] {
+                // the 70 000-iteration runs: every body in the thorough tier, bodies of <= 2 nodes in the quick one
+                if k > 1000 && tier == Tier::Quick && n > 2 {
+                    continue;
+                }
                 if !sh.mine() {
                     continue;
                 }
@@ -172,6 +177,17 @@ fn residue_family(sh: &mut Shard, tier: Tier) {
                 sh.begin(&|| printer::program(&prog));
                 sh.count("family:residue");
                 check_program(sh, "residue", &prog, 20_000_000);
+                // the same loop written on the literal condition and left by stop
+                if k > 0 && sh.mine() {
+                    let mut lb2 = vec![es(assign(id("n"), infix(id("n"), Operator::Add, int(1)))), es(iff(infix(id("n"), Operator::Gt, int(k)), vec![Stmt::Break], None))];
+                    lb2.extend(body.iter().cloned());
+                    let mut prog2 = prog.clone();
+                    prog2[3] = es(whil(boolean(true), lb2));
+                    renumber_prints(&mut prog2);
+                    sh.begin(&|| printer::program(&prog2));
+                    sh.count("family:residue");
+                    check_program(sh, "residue", &prog2, 20_000_000);
+                }
             }
             sh.running()
         });
@@ -288,7 +304,7 @@ fn depth_family(sh: &mut Shard, tier: Tier) {
             renumber_prints(&mut prog);
             sh.begin(&|| printer::program(&prog));
             sh.count("family:depth-templates");
-            check_program(sh, "depth-templates", &prog, 50_000);
+            check_program(sh, "depth-templates", &prog, 5_000);
         }
         sh.running()
     });
@@ -296,9 +312,18 @@ fn depth_family(sh: &mut Shard, tier: Tier) {
 
 fn run(sh: &mut Shard) {
     let tier = sh.cfg.tier;
+    let t0 = std::time::Instant::now();
     exit_context_family(sh);
-    depth_family(sh, tier);
+    sh.add("ms:exit-contexts", t0.elapsed().as_millis() as u64);
+    let t0 = std::time::Instant::now();
     residue_family(sh, tier);
+    sh.add("ms:residue", t0.elapsed().as_millis() as u64);
+    let t0 = std::time::Instant::now();
+    // the template programs are tiny: a model that needs more than 60 000 steps is in an endless loop
+    crate::refint::set_model_fuel(8_000);
+    depth_family(sh, tier);
+    sh.add("ms:depth-templates", t0.elapsed().as_millis() as u64);
+    let t0 = std::time::Instant::now();
     let sl = ctl_slice();
     crate::slices::for_each_program(&sl, tier, sh, &mut |sh, prog| {
         if !sh.mine() {
@@ -308,12 +333,13 @@ fn run(sh: &mut Shard) {
         renumber_prints(&mut p);
         sh.begin(&|| printer::program(&p));
         sh.count("family:templates");
-        check_program(sh, "templates", &p, 50_000);
+        check_program(sh, "templates", &p, 2_500);
         if sh.index() % 40_009 == 0 {
             sh.sample(json!({"program": printer::program(&p)}));
         }
         sh.running()
     });
+    sh.add("ms:templates", t0.elapsed().as_millis() as u64);
     // the same templates inside a function body (antwoord available at every position)
     let sl2 = Slice { name: "ctl-local", prelude: vec![], wrap: Some((vec!["i0"], vec![int(1)])), grammar: ctl_grammar(), bound: (4, 5), in_func: true };
     crate::slices::for_each_program(&sl2, tier, sh, &mut |sh, prog| {
@@ -324,7 +350,7 @@ fn run(sh: &mut Shard) {
         renumber_prints(&mut p);
         sh.begin(&|| printer::program(&p));
         sh.count("family:templates-local");
-        check_program(sh, "templates-local", &p, 50_000);
+        check_program(sh, "templates-local", &p, 2_500);
         sh.running()
     });
 }
